@@ -196,6 +196,29 @@ fn check(ctx: &Ctx, scratch: &Path, c: &Case) -> Check {
     r
 }
 
+/// `/a//b/./c/../d/` -> `/a/b/d` (no file-system access)
+fn lex_norm(p: &[u8]) -> Vec<u8> {
+    let mut stack: Vec<&[u8]> = vec![];
+    for seg in p.split(|b| *b == b'/') {
+        match seg {
+            b"" | b"." => {}
+            b".." => {
+                stack.pop();
+            }
+            s => stack.push(s),
+        }
+    }
+    let mut out = vec![];
+    for s in stack {
+        out.push(b'/');
+        out.extend_from_slice(s);
+    }
+    if out.is_empty() {
+        out.push(b'/');
+    }
+    out
+}
+
 fn check_pure(scratch: &Path, c: &Case) -> (Check, Vec<&'static str>) {
     let classes: std::cell::RefCell<Vec<&'static str>> = std::cell::RefCell::new(vec![]);
     let r = check_inner(scratch, c, &classes);
@@ -210,6 +233,9 @@ fn check_inner(scratch: &Path, c: &Case, classes: &std::cell::RefCell<Vec<&'stat
     // platform directory
     let mut expected_env: std::collections::BTreeMap<Vec<u8>, Vec<u8>> = Default::default();
     let mut bad_content = false;
+    // (name, bytes) of env files whose content is not UTF-8, and whether a dangling link sits in the env directory
+    let mut bad_entries: Vec<(Vec<u8>, Vec<u8>)> = vec![];
+    let mut has_dangling = false;
     match &c.platform {
         None => {
             let _ = std::fs::remove_dir_all(&d.platform);
@@ -251,6 +277,7 @@ fn check_inner(scratch: &Path, c: &Case, classes: &std::cell::RefCell<Vec<&'stat
                             }
                         }
                         bad_content = true;
+                        bad_entries.push((name, bytes.to_vec()));
                     }
                     PEntry::Dir { .. } => {
                         std::fs::create_dir(&p).unwrap();
@@ -274,7 +301,10 @@ fn check_inner(scratch: &Path, c: &Case, classes: &std::cell::RefCell<Vec<&'stat
                         std::fs::write(t.join("X"), b"x").unwrap();
                         std::os::unix::fs::symlink(&t, &p).unwrap();
                     }
-                    PEntry::Dangling { .. } => std::os::unix::fs::symlink("../targets/nope", &p).unwrap(),
+                    PEntry::Dangling { .. } => {
+                        has_dangling = true;
+                        std::os::unix::fs::symlink("../targets/nope", &p).unwrap()
+                    }
                 }
             }
         }
@@ -352,7 +382,30 @@ fn check_inner(scratch: &Path, c: &Case, classes: &std::cell::RefCell<Vec<&'stat
     let what = format!("exit {:?}, markers {:?}, stderr {:?}", out.code, out.markers, out.stderr.chars().take(300).collect::<String>());
     let r = (|| -> Check {
         let bad_file_input = c.build_phase && c.bad_input != 0;
-        let expect_error = bad_content || bad_mandatory || bad_variant || bad_file_input;
+        let mut expected_env = expected_env.clone();
+        let reported = out.code != Some(0) && out.dump.is_none() && out.count("on_error") == 1;
+        // Env holds OsStrings: a non-UTF-8 file content handed on byte for byte is "represented", not dropped or altered
+        let passed_on = bad_content && !bad_mandatory && !bad_variant && !bad_file_input && out.code == Some(0) && out.dump.is_some();
+        if passed_on {
+            classes.borrow_mut().push("non-utf8-content-passed-on");
+            for (n, b) in &bad_entries {
+                expected_env.insert(n.clone(), b.clone());
+            }
+        }
+        // a directory where store.toml would be: "no store" is as good as an error (the statement tolerates a missing store)
+        if c.build_phase && c.bad_input == 2 && !bad_content && !bad_mandatory && !bad_variant && out.code == Some(0) {
+            if let Some(dump) = &out.dump {
+                ensure!(dump["store"].is_null(), "C06:store-invented", "{:?}", dump["store"]);
+                return Ok(());
+            }
+        }
+        let expect_error = (bad_content && !passed_on) || bad_mandatory || bad_variant || bad_file_input;
+        if !expect_error && reported && (has_dangling || c.platform.is_none()) {
+            // a dangling link in <platform>/env, or no platform directory at all, is neither a regular file nor one of the
+            // tolerated cases: refusing it with a reported error is as good as ignoring it
+            classes.borrow_mut().push("dangling-link-or-missing-platform-dir-refused");
+            return Ok(());
+        }
         if expect_error {
             classes.borrow_mut().push("expects-reported-error");
             if out.code == Some(0) || out.dump.is_some() {
@@ -366,10 +419,11 @@ fn check_inner(scratch: &Path, c: &Case, classes: &std::cell::RefCell<Vec<&'stat
         }
         ensure!(out.code == Some(0), "C06:valid-inputs-rejected", "{what}");
         let dump = out.dump.as_ref().ok_or_else(|| Fail::new("C06:no-context", what.clone()))?;
-        ensure!(json_to_bytes(&dump["app_dir"]) == d.app.as_os_str().as_bytes(), "C06:app-dir", "{:?} vs {:?}", dump["app_dir"], d.app);
-        ensure!(json_to_bytes(&dump["buildpack_dir"]) == bp_dir_str.as_bytes(), "C06:buildpack-dir", "{:?} vs {:?}", dump["buildpack_dir"], bp_dir_str);
+        // the directories, not their spelling: both sides are compared after lexical normalisation
+        ensure!(lex_norm(&json_to_bytes(&dump["app_dir"])) == lex_norm(d.app.as_os_str().as_bytes()), "C06:app-dir", "{:?} vs {:?}", dump["app_dir"], d.app);
+        ensure!(lex_norm(&json_to_bytes(&dump["buildpack_dir"])) == lex_norm(bp_dir_str.as_bytes()), "C06:buildpack-dir", "{:?} vs {:?}", dump["buildpack_dir"], bp_dir_str);
         if c.build_phase {
-            ensure!(json_to_bytes(&dump["layers_dir"]) == layers_arg.as_bytes(), "C06:layers-dir", "{:?} vs {:?}", dump["layers_dir"], layers_arg);
+            ensure!(lex_norm(&json_to_bytes(&dump["layers_dir"])) == lex_norm(layers_arg.as_bytes()), "C06:layers-dir", "{:?} vs {:?}", dump["layers_dir"], layers_arg);
         }
         // target
         let t = &dump["target"];
@@ -453,7 +507,7 @@ fn nontrivial(c: &Case) -> bool {
 }
 
 pub fn run(ctx: &Ctx) {
-    ctx.set_rule("contexts of real detect/build executions of a scripted buildpack that dumps its context: platform directories (0..8 entries: files with byte-string names incl. dots, spaces, '=', newline, non-UTF-8 and UTF-8 contents incl. empty/trailing newlines/multi-line/padded; sub-directories; symlinks to files (direct and chained), to directories, dangling; env dir missing; platform dir missing), buildpack plans (0..4 entries with nested metadata of every TOML kind), store tables or no store.toml, descriptors with optional fields/targets/nested metadata, CNB_TARGET_* values from {unset (optional only), '', linux, v8, unicode, padded}, three spellings of CNB_BUILDPACK_DIR and the layers argument; separately generated classes with one unrepresentable value (non-UTF-8 file content in a regular file or behind one or two symlinks, non-UTF-8 value of a mandatory target variable, non-UTF-8 CNB_TARGET_ARCH_VARIANT, store.toml with non-UTF-8 bytes, store.toml being a directory, buildpack plan with non-UTF-8 bytes). Inputs are emitted by the harness's own TOML emitter. Oracle: field-by-field equality of the dump with the generated inputs; unrepresentable value => reported error (non-zero exit, error handler once, no context). Non-trivial: platform env has >= 1 file plus >= 1 symlink/directory, or plan/store/descriptor metadata nested >= 2; distinct = hash of the case.");
+    ctx.set_rule("contexts of real detect/build executions of a scripted buildpack that dumps its context: platform directories (0..8 entries: files with byte-string names incl. dots, spaces, '=', newline, non-UTF-8 and UTF-8 contents incl. empty/trailing newlines/multi-line/padded; sub-directories; symlinks to files (direct and chained), to directories, dangling; env dir missing; platform dir missing), buildpack plans (0..4 entries with nested metadata of every TOML kind), store tables or no store.toml, descriptors with optional fields/targets/nested metadata, CNB_TARGET_* values from {unset (optional only), '', linux, v8, unicode, padded}, three spellings of CNB_BUILDPACK_DIR and the layers argument; separately generated classes with one unrepresentable value (non-UTF-8 file content in a regular file or behind one or two symlinks, non-UTF-8 value of a mandatory target variable, non-UTF-8 CNB_TARGET_ARCH_VARIANT, store.toml with non-UTF-8 bytes, store.toml being a directory, buildpack plan with non-UTF-8 bytes). Inputs are emitted by the harness's own TOML emitter. Oracle: field-by-field equality of the dump with the generated inputs (directories after lexical normalisation); unrepresentable value => reported error (non-zero exit, error handler once, no context) — non-UTF-8 file content handed on byte for byte is accepted too, as are a reported error for a dangling link or a missing platform directory and 'no store' for a directory at store.toml. Non-trivial: platform env has >= 1 file plus >= 1 symlink/directory, or plan/store/descriptor metadata nested >= 2; distinct = hash of the case.");
     ctx.assume("paths and argv are UTF-8");
     let scratch = Scratch::new("c06");
     for (_p, v) in ctx.regress_files() {
